@@ -22,7 +22,7 @@ COMPONENTS = {"real": ["yowsup.layers.protocol_media.mediacipher.MediaCipher (en
               "stub": ["blob channel with fault injector (simulator)", "independent reference cipher doubles/media_ref.py"]}
 ASSUMPTIONS = ["six 1.17 shim on sys.path", "no scheduling/time dimension: single task, faults on the blob only",
                "a 10-byte MAC collision (2^-80) is treated as impossible"]
-BUDGET = {"quick": (700, 120), "thorough": (6000, 900)}
+BUDGET = {"quick": (700, 120), "thorough": (30000, 2700)}
 FAULTS = ["blob_flip", "blob_truncate", "blob_extend", "wrong_key", "wrong_kind"]
 PROBES = ["aligned_length", "empty_plaintext", "large_blob", "interop_pairs"]
 SHRINK = []
